@@ -1448,4 +1448,84 @@ theorem endpoint_chain_verdict_any (cfg : Cfg) (mo : MarksOK cfg) (vb : VBits cf
   · rw [← hflat false]; exact hsh
   · rw [← hflat true]; exact hsh
 
+/-! ### eliminating the outcome function `out` -/
+
+/-- the outcome a jump target of the endpoint chain stands for -/
+def outOf (env : Env) (pkt : Packet) (polRules : String → List Policy.Rule) (tiers : List Tier) (c : String) :
+    PolOutcome :=
+  match (tiers.flatMap (·.groups)).find? (fun g => !g.inlined && g.chain == c) with
+  | some g => firstDecision (g.nonStaged.map fun p => policyOutcome env pkt.v6 pkt (polRules p.chain))
+  | none => policyOutcome env pkt.v6 pkt (polRules c)
+
+theorem outOf_group (env : Env) (pkt : Packet) (polRules : String → List Policy.Rule) (tiers : List Tier)
+    (hn1 : ∀ t ∈ tiers, ∀ g ∈ t.groups, g.inlined = false → ∀ t' ∈ tiers, ∀ g' ∈ t'.groups, g'.inlined = false →
+      g'.chain = g.chain → g' = g)
+    (t : Tier) (ht : t ∈ tiers) (g : Group) (hg : g ∈ t.groups) (hi : g.inlined = false) :
+    outOf env pkt polRules tiers g.chain =
+      firstDecision (g.nonStaged.map fun p => policyOutcome env pkt.v6 pkt (polRules p.chain)) := by
+  unfold outOf
+  cases hf : (tiers.flatMap (·.groups)).find? (fun g' => !g'.inlined && g'.chain == g.chain) with
+  | none =>
+    rw [List.find?_eq_none] at hf
+    have := hf g (List.mem_flatMap.mpr ⟨t, ht, hg⟩)
+    simp [hi] at this
+  | some g' =>
+    have hm := List.mem_of_find?_eq_some hf
+    have hp := List.find?_some hf
+    obtain ⟨t', ht', hg'⟩ := List.mem_flatMap.mp hm
+    simp only [Bool.and_eq_true, Bool.not_eq_true', beq_iff_eq] at hp
+    rw [hn1 t ht g hg hi t' ht' g' hg' hp.1 hp.2]
+
+theorem outOf_other (env : Env) (pkt : Packet) (polRules : String → List Policy.Rule) (tiers : List Tier)
+    (c : String) (hc : ∀ t ∈ tiers, ∀ g ∈ t.groups, g.inlined = false → c ≠ g.chain) :
+    outOf env pkt polRules tiers c = policyOutcome env pkt.v6 pkt (polRules c) := by
+  unfold outOf
+  have : (tiers.flatMap (·.groups)).find? (fun g => !g.inlined && g.chain == c) = none := by
+    rw [List.find?_eq_none]
+    intro g hg
+    obtain ⟨t, ht, hg'⟩ := List.mem_flatMap.mp hg
+    cases hi : g.inlined
+    · have := hc t ht g hg' hi
+      simp; exact fun h => this h.symm
+    · simp
+  rw [this]
+
+/-- `endpoint_chain_verdict_any` with the outcome function constructed (`outOf`) from name distinctness:
+a group chain name identifies its group and is no policy / profile chain name -/
+theorem endpoint_chain_verdict_names (cfg : Cfg) (mo : MarksOK cfg) (vb : VBits cfg) (vd : VD cfg) (e : EpCfg)
+    (env : Env) (pkt : Packet) (chains : List Chain) (name : String) (tiers : List Tier) (profiles : List String)
+    (polRules : String → List Policy.Rule) (F : Nat) (m : Mark)
+    (hup : e.adminUp = true)
+    (hfs : e.failsafe ≠ "" → ∀ m', evalChain env chains pkt (F + 3) e.failsafe m' = .returned m')
+    (hct : pkt.ctState ≠ "RELATED" ∧ pkt.ctState ≠ "ESTABLISHED" ∧ pkt.ctState ≠ "INVALID")
+    (henc : (e.dropVXLAN = true → pkt.proto ≠ 17) ∧ (e.dropIPIP = true → pkt.proto ≠ 4))
+    (hmD : m &&& cfg.markDrop = 0)
+    (hep : lookupChain chains name = some (endpointChain cfg e name tiers profiles).rules)
+    (hgrp : ∀ t ∈ tiers, ∀ g ∈ t.groups, g.inlined = false →
+      lookupChain chains g.chain = some (policyGroupChain cfg g).rules)
+    (hpol : ∀ t ∈ tiers, ∀ g ∈ t.groups, ∀ p ∈ g.pols, p.staged = false →
+      PolicyChainOK cfg env pkt chains (polRules p.chain) p.chain)
+    (hprof : ∀ p ∈ profiles, ProfileChainOK cfg env pkt chains (polRules p) p)
+    (hn1 : ∀ t ∈ tiers, ∀ g ∈ t.groups, g.inlined = false → ∀ t' ∈ tiers, ∀ g' ∈ t'.groups, g'.inlined = false →
+      g'.chain = g.chain → g' = g)
+    (hn2 : ∀ t ∈ tiers, ∀ g ∈ t.groups, g.inlined = false →
+      (∀ t' ∈ tiers, ∀ g' ∈ t'.groups, g'.inlined = true → ∀ p ∈ g'.nonStaged, p.chain ≠ g.chain) ∧
+      (∀ p ∈ profiles, p ≠ g.chain)) :
+    let r := evalChain env chains pkt (F + 4) name m
+    match e.chainType with
+    | .normal =>
+      VShape cfg (endpointVerdict (policyTiers env pkt polRules tiers true)
+        (profiles.map fun p => policyOutcome env pkt.v6 pkt (polRules p))) r
+    | .forward =>
+      if tiers.isEmpty then ∃ m', r = .returned m' ∧ m' &&& cfg.markAccept = cfg.markAccept
+      else TShape cfg (tiersVerdict (policyTiers env pkt polRules tiers true)) (fun m' => .returned m') r
+    | _ => TShape cfg (tiersVerdict (policyTiers env pkt polRules tiers false)) (fun m' => .returned m') r :=
+  endpoint_chain_verdict_any cfg mo vb vd e env pkt chains name tiers profiles polRules
+    (outOf env pkt polRules tiers) F m hup hfs hct henc hmD hep hgrp hpol hprof
+    (fun t' ht' g' hg' hi' p hp => outOf_other env pkt polRules tiers p.chain
+      (fun t ht g hg hi => (hn2 t ht g hg hi).1 t' ht' g' hg' hi' p hp))
+    (fun t ht g hg hi => outOf_group env pkt polRules tiers hn1 t ht g hg hi)
+    (fun p hp => outOf_other env pkt polRules tiers p (fun t ht g hg hi => (hn2 t ht g hg hi).2 p hp))
+
+
 end CalicoVerif.C09
